@@ -22,12 +22,12 @@ CHECKS = {
              note='trusted: ref/codec.py, ref/codec_st.py (vector-gated), ASan runtime, guard pages; length SIZE_MAX is outside the implementation limit in both directions', ref='4/C08'),
  'C16': dict(cat='model_checking', tech='bounded exhaustive enumeration of boundary-class tuples (parameter set x private key x hash x generator tape x signature length) and of every single-bit / boundary alteration of signature, key and hash on the real code against spec-level references of the verification equations',
              text='bign96, g12s (8 sets), dstu (10 curves, base point generated per DSTU 6.8), pfok: private keys {1,2,q-2,q-1,filler} x hashes {0,1,all-ones,q,q+1,filler, DSTU truncation classes} x tape shapes (rejections, values >= q, 64/65 rejections) x admissible ld: generated pairs validate and equal the reference sampling, sign = reference where defined and verifies; '
-                  'every signature bit, r,s in {0,q,q+r}, every public-key bit and hash alteration accepted iff the reference equation accepts (rows engineered to s = 0, r = 0, t = 0); dstu compress/recover round trip incl. x = 0 and both trace classes; pfok DH / MTI symmetric and = pow().',
+                  'every signature bit, r,s in {0,q,q+r}, every public-key bit and hash alteration accepted iff the reference equation accepts (rows engineered to s = 0, r = 0, t = 0); dependent public keys (d in {1, order - 1}: Q = +-base point) x 48 (400) (hash, nonce) fillers per set with verify(sign) = OK; dstu compress/recover round trip incl. x = 0 and both trace classes; pfok DH / MTI symmetric and = pow().',
              note='trusted: ref/bign.py, ref/g12s.py, ref/dstu.py, ref/ec2.py, ref/pfok.py (vector-gated)', ref='4/C16'),
  'C12': dict(cat='model_checking', tech='complete enumeration of finite domains (date tuples over an octet alphabet, every integer below 2^16/2^24 and in boundary windows, every binary polynomial of degree <= 16) and of field x perturbation tables of every standard parameter set on the real validators against independent references',
              text='tmDateIsValid2 on all 6-tuples over a 9- (thorough 15-) symbol octet alphabet, tmDateIsValid on every (y,m,d) of [1580,2105]x[0,13]x[0,32]; priIsPrimeW for EVERY n < 2^16 (2^24) and windows around 2^31, 2^32, 2^63, 2^64-1 and the Miller-Rabin base-set limits in both word sizes, Carmichael numbers < 10^10 (10^11), p(k(p-1)+1) families, strong pseudoprimes, products of standard primes/orders, multi-word Chernick numbers; '
                   'priNextPrimeW/priNextPrime from every start < 2^16 and the last 2^12 values below 2^l; priIsSieved/priIsSmooth likewise; ppIsIrred/belsValM on all polynomials of degree <= 16 and structured degree-128/192/256 families; '
-                  '30 standard parameter sets (bign, bign96, g12s, stb99, dstu, pfok) validate and each field x 45-85 perturbations gets the reference verdict; public keys / key pairs at every boundary (off-curve, twist, x,y = p, p + x0, (0,0), d in {0,1,q-1,q,q+1}).',
+                  '30 standard parameter sets (bign, bign96, g12s, stb99, dstu, pfok) validate and each field x 45-85 perturbations gets the reference verdict; generators as trace conformance: bignParamsGen with scripted on_seed / calc_q callbacks (seeds before the standard one, bad orders, callback errors, 2^64 seed wrap) and pfokParamsGen / stb99ParamsGen must show the callback trace and result of the reference run of alg. 6.1.3 / the prime chain; priIsSGPrime on every odd prime < 2^16 (2^20) and word-boundary windows; public keys / key pairs at every boundary (off-curve, twist, x,y = p, p + x0, (0,0), d in {0,1,q-1,q,q+1}).',
              note='trusted: ref/pri.py (sieve + deterministic Miller-Rabin), ref/polys.py, ref/dates.py, scheme references (vector-gated); priRMTest uses an internal generator: composites are asserted rejected only with >= 24 iterations', ref='4/C12'),
  'C13': dict(cat='model_checking', tech='complete enumeration of (length, key family, count, threshold, ordered subset) for counts 1..6 and a stated structured family for counts 7..16 on the real bels code against a spec-level GF(2)[x] reference',
              text='len {16,24,32} x key family {standard, belsGenMi from tapes, belsGenMid from identifiers} x count 1..6 (quick 1..5 + 6 with filler values) x threshold 1..count x secret {0,1,FF..,filler} x generator output {00..,FF..,filler} x EVERY ordered subset of every size: '
@@ -64,13 +64,15 @@ CHECKS = {
              note='trusted: the compilers; B_PER_W=32 on the LP64 ABI stands for the 32-bit configuration (no 32-bit libc here)', ref='4/C19'),
  'C15': dict(cat='fault_enumeration', tech='deallocator monitor (link-time --wrap) over every exit of every secret-taking call: success, authentication failure and each enumerated allocation-fault index',
              text='Every block handed back to the allocator during a secret-taking high-level call is snapshotted at the moment of release and scanned for 8-octet windows of the secret inputs, their '
-                  'expanded forms (belt key schedule, HMAC ipad/opad, hashed long keys) and module-specific derived secrets, on the success exit, on authentication-failure exits and on every '
+                  'expanded forms (belt key schedule, HMAC ipad/opad, hashed long keys), module-specific derived secrets and -- on failing unwraps of authentic tokens -- the content the token protects, on the success exit, on authentication-failure exits (one representative of every (function, altered field) class at least) and on every '
                   'allocation-fault exit (fail exactly the i-th allocation, for all i).',
              note='trusted: link-time --wrap of free/realloc; needle derivation from the reference models; constant keys skipped (indistinguishable from wiped memory)', ref='4/C15'),
- 'C09': dict(cat='fault_enumeration', tech='exhaustive fault-point enumeration (fail exactly the i-th allocation for every i) plus exhaustive argument-boundary sweeps and single-bit authentication corruptions on the real code under ASan',
+ 'C09': dict(cat='fault_enumeration', tech='exhaustive fault-point enumeration (fail exactly the i-th allocation for every i) plus exhaustive argument-boundary sweeps, a NULL-pointer sweep over every pointer argument, and single-bit authentication corruptions on the real code under ASan',
              text='For every high-level call of the corpora the number N of allocation points is measured and the call is re-run N times with exactly the i-th allocation failing (malloc and realloc, realloc always moving): '
                   'it must return an error, leave nothing allocated and not crash; each length/scalar argument is swept across and beyond its documented domain and must give the documented error class with all writes '
-                  'inside exact-size buffers; every single-bit corruption of tag/header/ciphertext makes unwrap fail without releasing any 8-octet window of the plaintext.',
+                  'inside exact-size buffers; NULL-pointer sweep: each pointer argument of 133 err_t functions in turn passed as NULL (77 at catalogue level, 56 more at the call inside protocol / token composites through an '
+                  'interceptor), skipped exactly where the header text allows a null pointer: an error of a documented class, never a crash or assertion; every single-bit corruption of tag/header/ciphertext and every '
+                  'authentic-token-with-other-header case makes unwrap fail without releasing any 8-octet window of the plaintext.',
              note='trusted: link-time --wrap of the allocator, ASan runtime, error classes transcribed from the headers', ref='4/C09'),
  'C10': dict(cat='model_checking', tech='explicit-state search (BFS) over (position, raw bytes of the real state blob) with every admissible fragment length, Get/Verify and relocation as transitions',
              text='For each Start/Step/Get bundle the reachable set of (position, state bytes) nodes is closed under Step(f) for every admissible fragment length, Get/Get2/Verify (continuing from the state after Get '
